@@ -654,6 +654,62 @@ def miss_path(pc, exc='StopIteration'):
     return holds and fails
 
 
+def lookup_protocol(ctx, qual):
+    """how a table lookup helper reports a miss: 'raises' (`next(<generator>)`: StopIteration) or 'none' (`next(<generator>, None)`, or a
+    search loop falling through to `return None`); None when it is neither"""
+    from ..sval import NONE
+    from .. import tq
+    S = ctx.sval(ctx.func(qual))
+    rets = [t for _, t, _ in S.returns]
+    if len(rets) == 1 and tq.is_call(rets[0], 'builtins.next'):
+        a = [v for _, v in rets[0][3]]
+        if len(a) == 1:
+            return 'raises'
+        if len(a) == 2 and a[1] == NONE:
+            return 'none'
+        return None
+    if rets and any(t == NONE for t in rets):
+        return 'none'
+    return None
+
+
+def lookup_missed(pc, protocol, result, exc='StopIteration'):
+    """this path is taken when - and only when - the lookup whose value term is `result` found nothing: its exception was caught
+    (protocol 'raises', see miss_path) or its result is None (protocol 'none': `if x is None`, `if not x`, the else of `if x`)"""
+    from ..sval import strip_ids, NONE
+    if protocol == 'raises':
+        return miss_path(pc, exc)
+    if protocol != 'none':
+        return False
+    L = strip_ids(result)
+
+    def val(t, none):
+        # the value of test t when the lookup result is None (none=True) / an object (none=False); None when t says nothing
+        if t == L:
+            return not none
+        if t[0] == 'cmp' and t[1] in ('is', '==') and {t[2], t[3]} == {L, NONE}:
+            return none
+        if t[0] == 'not':
+            v = val(t[1], none)
+            return None if v is None else not v
+        if t[0] in ('and', 'or'):
+            vs = [val(x, none) for x in t[1]]
+            if t[0] == 'and' and any(v is False for v in vs):
+                return False
+            if t[0] == 'or' and any(v is True for v in vs):
+                return True
+            if all(v is not None for v in vs):
+                return all(vs) if t[0] == 'and' else any(vs)
+        return None
+    from .. import tq
+    rel = [(strip_ids(a[0]), a[1]) for a in pc if tq.contains(strip_ids(a[0]), L)]
+    if not rel:
+        return False
+    holds = all(val(t, True) == v for t, v in rel)
+    fails = any(val(t, False) != v for t, v in rel)
+    return holds and fails
+
+
 def lookup_side(pc, key):
     """which side of a table lookup by `key` a path condition is on: 'miss' when the KeyError of the lookup was caught or the membership
     test `key in <table>` failed, 'hit' when nothing else constrains the path (at most the membership test held), else None.
